@@ -20,6 +20,18 @@ NOTES = ('All checks: ./check <id> --tier quick|thorough; VERIF_SEED, VERIF_TIER
          'Specifications under /verif/spec, known findings in /verif/known_findings.json, design in DESIGN.md.')
 NOT_YET = {}
 CHECKS = {
+    'C11': dict(
+        engine='tlc+vectors', technique='TLA+ reference spec of the configuration text grammar and per-filter normalisers (ConfigGrammar.tla) checked by TLC; all cases replayed into the real parse_topics/parse_options and the ten real normalize_config',
+        design_ref='DESIGN.md 2.5, 5/C11',
+        text='TLC checks for every case in the bounded domains (a) Parse(Render(x)) = x for topic-mapping lists and option '
+             'lists, (b) text == list == structured and idempotence of the reference normaliser for 1-4 entries of '
+             'Filter/Util/Recorder/VideoIn/VideoOut/ImageIn/ImageOut, (c) the same for the Webvis/REST/MQTTOut address '
+             'grammars; a defect-on run must exhibit the whitespace-before-= counterexample. Every case is executed against '
+             'the real code and the property\'s own formulas (idempotence, text == structured, parse inverse of render) are '
+             'evaluated on the real results.',
+        note='state space = set of cases; tokens are words from a fixed vocabulary plus separators; whitespace = one or two '
+             'blanks; validity of inputs derived from the docstrings with ambiguity laws; config cases vary one entry among '
+             'up to three fixed fillers; MQTTOut compared modulo the random client id'),
     'C09': dict(
         engine='tlc+vectors', technique='TLA+ reference spec (Codec.tla) checked by TLC; all vectors concretised and replayed into the real codec',
         design_ref='DESIGN.md 2.5, 5/C09',
